@@ -128,6 +128,7 @@ pub async fn run(seed: u64, sched: Rc<Sched>, keep_log: bool) -> (CaseResult, Ve
         faults: Default::default(),
         n_actions: 0,
         twins: 0,
+        arm: None,
     };
     let committee = crate::bft::cluster::make_committee(&cfg);
     let genesis = committee.genesis.clone();
